@@ -296,7 +296,7 @@ fn derives(m: &Model, ctx: &mut Ctx) {
             }
         }
     }
-    ctx.floor("C19.derives/type-template-calls", n, 17);
+    ctx.floor("C19.derives/type-template-calls", n, 12);
     if let Some(f) = anchor_fn(m, ctx, "C19.derives", Some("Rasn"), "join_annotations", None) {
         ctx.oblige("C19.derives", "join-type-annotation", true);
         let b = tok(&f.block);
